@@ -1,6 +1,7 @@
 """More process-level monitors on the real binary: C13, C17, and the binary stages of C04, C06, C12, C14."""
 import random
 import re
+import zlib
 import threading
 import time
 from concurrent.futures import ThreadPoolExecutor
@@ -64,9 +65,9 @@ def parse_spin_options(lines):
     return opts
 
 
-def c13_session(binary, plan, positions):
+def c13_session(binary, plan, positions, delays=None):
     """plan: list of (option name, value, when) executed in order in one process. Returns list of results."""
-    e = Engine(binary)
+    e = Engine(binary, {"VERIF_UCI_DELAYS": delays} if delays else None)
     results = []
     try:
         ask(e, "uci", lambda x: x == "uciok", 30)
@@ -166,8 +167,14 @@ def c13_stage(out, tier, seed):
         bname, binary, plan, heavy = s
         if heavy:
             heavy_sem.acquire()
+        # "between searches" includes the moment right after bestmove, while the search thread is still
+        # winding down: every second session holds that window open (hook H3)
+        delayed = (zlib.crc32((str(plan[0][1]) + plan[0][0]).encode()) % 2 == 0)
         try:
-            res = c13_session(binary, plan, positions)
+            res = c13_session(binary, plan, positions, "go.after_bestmove=25,go.after_latch_set=10" if delayed else None)
+            if delayed:
+                with lock:
+                    out.features["sessions_setting_options_right_after_bestmove"] = out.features.get("sessions_setting_options_right_after_bestmove", 0) + 1
         finally:
             if heavy:
                 heavy_sem.release()
@@ -203,8 +210,8 @@ def c13_stage(out, tier, seed):
 # ---------------------------------------------------------------------------------------
 # C17 — the position command reproduces the game exactly
 
-def c17_batch(binary, games, conv_alive, conv_lock):
-    e = Engine(binary)
+def c17_batch(binary, games, conv_alive, conv_lock, delays=None):
+    e = Engine(binary, {"VERIF_UCI_DELAYS": delays} if delays else None)
     res = []
     try:
         prev_has_replies = True  # a fresh engine holds the start position
@@ -320,7 +327,14 @@ def c17_stage(out, tier, seed):
 
     def work(b):
         (bname, binary), gs = b
-        res = c17_batch(binary, gs, conv_alive, conv_lock)
+        # sessions with searches in between: every second engine keeps the search thread alive (holding its
+        # lock) for 25 ms after it printed bestmove, while the next commands arrive at once (hook H3)
+        has_go = any("go" in g.get("pre", []) for g in gs)
+        delayed = has_go and (zlib.crc32(gs[0]["moves"].encode()) % 2 == 0)
+        res = c17_batch(binary, gs, conv_alive, conv_lock, "go.after_bestmove=25,go.after_latch_set=10" if delayed else None)
+        if delayed:
+            with lock:
+                out.features["sessions_with_command_right_after_bestmove_delay"] = out.features.get("sessions_with_command_right_after_bestmove_delay", 0) + 1
         with lock:
             for r in res:
                 g = r["game"]
